@@ -18,6 +18,14 @@ from . import tlc, filt, pool, known
 INV = ["SelfZero", "ZeroAtKnots", "SubsampleZero", "IndexRule", "Antisymmetric", "AngleRange", "ResampleAtKnots", "ResampleLinear"]
 SIG_PAIRS = [(1, 1), (2, 2), (1, 2), (2, 1), (3, 4), (4, 3), (3, 3)]
 TICK = 0.25
+OFFSETS = (0.0, 0.0, 345600.0, 1073741824.0)     # absolute time of tick 0: zero, second of week, epoch-like (all exact in binary)
+_off = [0.0]
+
+
+def tm(t):
+    """tick -> seconds. The algebra of C18 does not depend on where the time axis starts; tolerances scaled by |t| do
+    (seeded change C18_6: an np.allclose 'same grid' shortcut in resample_state)."""
+    return _off[0] + TICK * t
 K = 60.0
 RPH = ("roll", "pitch", "heading")
 LLA = ("lat", "lon", "alt")
@@ -51,7 +59,7 @@ def to_real(col, v):
 
 def build(pd, idx, cols, vals):
     data = {c: [to_real(c, vals[k][j]) for k in range(len(idx))] for j, c in enumerate(cols)}
-    return pd.DataFrame(data, index=[TICK * t for t in idx], columns=list(cols))
+    return pd.DataFrame(data, index=[tm(t) for t in idx], columns=list(cols))
 
 
 def angle_close(x, y, tol=1e-9):
@@ -89,6 +97,8 @@ def expected_value(c, cols, row, has_lla, has_rph):
 def replay_pair(m, line):
     """Returns list of (category, text); category in violation | F6 | F8 | F9."""
     pd, T = m["pd"], m["transform"]
+    import zlib
+    _off[0] = OFFSETS[zlib.crc32(line.encode()) % len(OFFSETS)]
     v = tlc.parse_value(line)
     (aidx, asig, acols, avals, bidx, bsig, bcols, bvals, sign, dindex, dcols, dvals, resampled, same, nested, f9, ranked, rindex) = v
     acols, bcols, dcols = list(acols), list(bcols), list(dcols)
@@ -112,7 +122,7 @@ def replay_pair(m, line):
     if not (A.equals(snapA) and B.equals(snapB)):
         out.append(("violation", "compute_state_difference modified its arguments for %s" % tag))
     if D is not None:
-        exp_index = [TICK * t for t in dindex]
+        exp_index = [tm(t) for t in dindex]
         exp_cols = [out_name(c, has_lla) for c in dcols]
         if list(D.index) != exp_index:
             out.append(("violation", "difference index %s, expected %s (%s)" % (list(D.index), exp_index, tag)))
@@ -171,12 +181,12 @@ def replay_pair(m, line):
     rng = np.random.RandomState(hash((tuple(aidx), asig, tuple(bidx))) % (2 ** 31))
     ticks = list(range(-1, maxt + 2)) + [int(aidx[0])]
     rng.shuffle(ticks)
-    times = [TICK * t for t in ticks]
+    times = [tm(t) for t in ticks]
     partial_a = bool(set(acols) & set(RPH)) and not all(c in acols for c in RPH)
     try:
         Rs = T.resample_state(A, times if rng.rand() < 0.5 else np.array(times))
         exp_ticks = sorted(t for t in ticks if aidx[0] <= t <= aidx[-1])
-        if list(Rs.index) != [TICK * t for t in exp_ticks]:
+        if list(Rs.index) != [tm(t) for t in exp_ticks]:
             out.append(("violation", "resample_state index %s, expected %s (%s)" % (list(Rs.index), exp_ticks, tag)))
         elif list(Rs.columns) != acols:
             out.append(("violation", "resample_state changed the column order: %s vs %s" % (list(Rs.columns), acols)))
